@@ -1,6 +1,8 @@
 package linkedhashset
 
 import (
+	vl "github.com/emirpasic/gods/v2/zzvlib"
+	"encoding/json"
 	"github.com/emirpasic/gods/v2/containers"
 	"github.com/emirpasic/gods/v2/lists/doublylinkedlist"
 	"github.com/emirpasic/gods/v2/sets"
@@ -103,4 +105,28 @@ func VHAlgebra() {
 func VHSnap() {
 	c, _ := VGSet()
 	containers.VSnapStep(containers.VSnap{C: c, Mutate: []func(){c.Clear, func() { c.Add(v.Int("m")) }, func() { c.Remove(v.Int("m")) }}, AddArgs: []func([]int){func(a []int) { c.Add(a...) }}, New: func(a []int) containers.Container[int] { return New(a...) }})
+}
+
+var _ = vl.Less
+
+func vJSON(c *Set[int]) containers.VJSON {
+	return containers.VJSON{C: c, ToJSON: c.ToJSON, FromJSON: c.FromJSON,
+		Marshal: func() ([]byte, error) { return json.Marshal(c) },
+		Inv:     func() { VInv(c) },
+		Step:    func() { x := v.Int("sx"); c.Add(x); v.Assert(c.Contains(x), "C12:add-after-load") },
+		Fresh:   func() containers.VJSON { return vJSON(New[int]()) },
+		Ref: func(ks, xs []int) ([]int, []int) { return nil, vl.DedupFirst(xs) },
+	}
+}
+
+// VHJSONRound: ToJSON / json.Marshal / FromJSON round trip from an arbitrary state (C11).
+func VHJSONRound() {
+	c, _ := VGSet()
+	containers.VJSONRound(vJSON(c))
+}
+
+// VHJSONLoad: FromJSON of an arbitrary document into an arbitrary prior state (C12, C17).
+func VHJSONLoad() {
+	c, _ := VGSet()
+	containers.VJSONLoad(vJSON(c))
 }
